@@ -21,6 +21,7 @@ Scenario = JSON object (one per line in corpus/stats/*.txt and in replay files):
   {"kind":"wscale","xws":[[x,w],..],"c":10.0}                 the same data with weights w and c*w: identical statistics
   {"kind":"wunit","xs":[..]}                                  weights 1: identical to the unweighted summary
   {"kind":"wzero","xws":[[x,w],..]}                           zero-weight samples interspersed: bitwise identical without them
+  {"kind":"selfmerge","xs":[..],"weighted":bool}              merge(s, s, s): target and both sources are one object
   {"kind":"dataset","xs":[..]}                                through cmb_dataset_add / cmb_dataset_summarize (a user)
   {"kind":"timeseries","xts":[[x,t],..],"tend":T}             through cmb_timeseries_add / _finalize / _summarize (a user; non-empty)
 """
@@ -534,6 +535,21 @@ def scenario_ops(scn):
         i1 = emit(("wget", 1))
         checks.append(("bitwise", i0, i1))
         checks.append(("stats", emit(("wstat", 0)), xws, len(xws), ""))
+    elif kind == "selfmerge":
+        # one object as target and as both sources: the summary of the data taken twice
+        xs = [float(x) for x in scn["xs"]]
+        if scn.get("weighted"):
+            emit(("winit", 0))
+            for x in xs:
+                emit(("wadd", 0, x, 2.0))
+            emit(("wmerge", 0, 0, 0))
+            checks.append(("stats", emit(("wstat", 0)), [(x, 2.0) for x in xs + xs], 2 * len(xs) + 1, "merged with itself: "))
+        else:
+            emit(("dinit", 0))
+            for x in xs:
+                emit(("dadd", 0, x))
+            emit(("dmerge", 0, 0, 0))
+            checks.append(("stats", emit(("dstat", 0)), [(x, 1.0) for x in xs + xs], 2 * len(xs) + 1, "merged with itself: "))
     elif kind == "dataset":
         xs = [float(x) for x in scn["xs"]]
         emit(("xnew",))
@@ -666,7 +682,7 @@ def gen_scenarios(seed, total, quick=True, exclude=()):
     """exclude: predicates (scenario -> bool) of known-finding triggers"""
     rng = random.Random(seed * 1000003 + 5)
     out = []
-    kinds = ["seq", "merge_all_splits", "seq", "merge", "merge3", "wseq", "seq", "wmerge", "wscale", "wunit", "wzero", "merge_empty", "wseq", "dataset", "timeseries"]
+    kinds = ["seq", "merge_all_splits", "seq", "merge", "merge3", "wseq", "seq", "wmerge", "wscale", "wunit", "wzero", "merge_empty", "wseq", "dataset", "timeseries", "selfmerge"]
     while len(out) < total:
         kind = kinds[len(out) % len(kinds)] if rng.random() < 0.8 else rng.choice(kinds)
         fam = rng.choice(VALUE_FAMS)
@@ -714,6 +730,8 @@ def gen_scenarios(seed, total, quick=True, exclude=()):
                 if rng.random() < 0.3:
                     ws[i] = 0.0
             new.append({"kind": "wzero", "xws": [list(p) for p in zip(xs, ws)]})
+        elif kind == "selfmerge":
+            new.append({"kind": "selfmerge", "xs": xs[:40], "weighted": rng.random() < 0.5})
         elif kind == "dataset":
             new.append({"kind": "dataset", "xs": xs})
         elif kind == "timeseries":
@@ -738,7 +756,7 @@ def scenario_key(scn):
 def scenario_samples(scn):
     """number of samples of non-zero weight involved (for the non-triviality rule)"""
     k = scn["kind"]
-    if k in ("seq", "wunit", "dataset"):
+    if k in ("seq", "wunit", "dataset", "selfmerge"):
         return len(scn["xs"])
     if k == "timeseries":
         return len(scn["xts"])
